@@ -2,6 +2,7 @@
    (Model/LayoutRef.v), for every choice of the part printers, colour table, flag word and context. *)
 Require Import Verif.Model.Base Verif.Model.Decision Verif.Model.GoSem Verif.Model.LayoutRef.
 Require Verif.Gen.Layout.
+Require Import Verif.Model.Dec Verif.Model.Attrs Verif.Model.Encode.
 Require Import Lia ZifyBool ZifyNat.
 
 Section P.
@@ -36,3 +37,59 @@ Proof.
   destruct (f_attrs p1) as [h p2]. intros H. injection H as <- <-. split; [reflexivity|]. eexists; reflexivity.
 Qed.
 End P.
+
+(* ---- PrintCtx.Begin / End ---- *)
+Lemma gen_pc_begin j buf : Layout.pc_begin j buf = pc_begin_ref j buf.
+Proof. first [ reflexivity | unfold Layout.pc_begin, pc_begin_ref; destruct j; rewrite ?app_nil_r; reflexivity ]. Qed.
+
+Lemma gen_pc_end j buf nl : Layout.pc_end j buf nl = pc_end_ref j buf nl.
+Proof.
+  first [ reflexivity
+        | unfold Layout.pc_end, pc_end_ref; cbv zeta; destruct j; destruct nl;
+          rewrite ?app_nil_r, <- ?app_assoc; reflexivity ].
+Qed.
+
+(* ---- checkedfuncname ---- *)
+Lemma gen_checked_funcname f flags prov name :
+  Layout.checked_funcname f flags prov name = checked_funcname_ref f flags prov name.
+Proof.
+  first [ reflexivity
+        | unfold Layout.checked_funcname, checked_funcname_ref; cbv zeta;
+          repeat match goal with |- context [if ?c then _ else _] => destruct c eqn:? end;
+          try reflexivity; try lia;
+          match goal with |- context [str_suffix ?a ?b] => destruct (str_suffix a b) end; reflexivity ].
+Qed.
+
+(* the text after the last '/' is what the encoder model prints (Encode.after_last_slash) *)
+Lemma last_slash_spec : forall s acc i a, a < i ->
+  let r := last_index_from s 47 i a in
+  (r = a /\ after_last_slash_aux acc s = rev acc ++ s)
+  \/ (i <= r < i + Z.of_nat (length s) /\ after_last_slash_aux acc s = skipn (Z.to_nat (r - i + 1)) s).
+Proof.
+  induction s as [|b t IH]; intros acc i a Hai; cbn [last_index_from after_last_slash_aux length].
+  - left. split; [reflexivity | now rewrite app_nil_r].
+  - destruct (bz b =? 47) eqn:Eb.
+    + destruct (IH [] (i + 1) i ltac:(lia)) as [[Hr Ha]|[Hr Ha]]; right.
+      * rewrite Hr. split; [lia|]. rewrite Ha. replace (Z.to_nat (i - i + 1)) with 1%nat by lia. reflexivity.
+      * split; [lia|]. rewrite Ha.
+        replace (Z.to_nat (last_index_from t 47 (i + 1) i - i + 1)) with (S (Z.to_nat (last_index_from t 47 (i + 1) i - (i + 1) + 1))) by lia.
+        reflexivity.
+    + destruct (IH (b :: acc) (i + 1) a ltac:(lia)) as [[Hr Ha]|[Hr Ha]].
+      * left. split; [exact Hr|]. rewrite Ha. cbn [rev]. now rewrite <- app_assoc.
+      * right. split; [lia|]. rewrite Ha.
+        replace (Z.to_nat (last_index_from t 47 (i + 1) a - i + 1)) with (S (Z.to_nat (last_index_from t 47 (i + 1) a - (i + 1) + 1))) by lia.
+        reflexivity.
+Qed.
+
+Lemma checked_funcname_plain f flags prov name : Z.land flags 256 = 0 ->
+  checked_funcname_ref f flags prov name = Some (after_last_slash name).
+Proof.
+  intros Hf. unfold checked_funcname_ref. rewrite Hf. cbn [Z.eqb negb]. cbv zeta.
+  unfold str_last_index. change (bz x2f) with 47. unfold after_last_slash.
+  destruct (last_slash_spec name [] 0 (-1) ltac:(lia)) as [[Hr Ha]|[Hr Ha]]; cbv zeta in *.
+  - rewrite Hr. cbn. rewrite Ha. reflexivity.
+  - destruct (0 <=? last_index_from name 47 0 (-1)) eqn:E; [|lia].
+    unfold str_suffix.
+    destruct ((last_index_from name 47 0 (-1) + 1 <? 0) || (Z.of_nat (length name) <? last_index_from name 47 0 (-1) + 1)) eqn:E2; [lia|].
+    rewrite Ha. f_equal. f_equal. lia.
+Qed.
